@@ -3,12 +3,17 @@ package simrt
 import (
 	"reflect"
 	"sync/atomic"
+	"unsafe"
 )
 
 // Channel seams. The rewriter turns plain receive expressions `<-ch` into
 // simrt.Recv(ch) / simrt.Recv2(ch) and `close(ch)` into simrt.Close(ch), so
 // that a task waiting on a channel waits in the scheduler instead of blocking
-// the goroutine that holds the baton. Sends are not rewritten (see DESIGN 10).
+// the goroutine that holds the baton. Send statements `ch <- v` become
+// simrt.Send(ch, v): a send that would block (unbuffered channel, full buffer)
+// is registered as pending and the sender waits in the scheduler until a
+// simulated receiver takes the value (a rendezvous decided by the scheduler,
+// not by the Go runtime).
 
 var chanEvents int32 // bumped by Close; makes the scheduler poll waiting receivers
 
@@ -49,7 +54,7 @@ func (s *Sim) recv(c reflect.Value) (reflect.Value, bool) {
 	s.step(OpSelect, 0, false)
 	for {
 		if c.IsValid() && !c.IsNil() {
-			v, ok := c.TryRecv()
+			v, ok := s.tryRecvPend(c)
 			if ok {
 				return v, true
 			}
@@ -70,4 +75,128 @@ func (s *Sim) recv(c reflect.Value) (reflect.Value, bool) {
 //go:norace
 func chanPollNeeded() bool {
 	return atomic.SwapInt32(&chanEvents, 0) != 0
+}
+
+// ---------------------------------------------------------------------------
+// Sends.
+
+type pendSend struct {
+	ch    uintptr
+	v     reflect.Value
+	t     *Task
+	taken bool
+	retry bool
+}
+
+// Send sends v on ch. Inside a simulation a send that would block waits in the
+// scheduler; outside (or from a goroutine that is not the running task, e.g.
+// a finalizer) it is the plain send.
+func Send[C ~chan T | ~chan<- T, T any](ch C, v T) {
+	s := cur
+	if s == nil || !s.running || s.killed || !s.onTaskGoroutine() {
+		atomic.AddInt32(&chanEvents, 1)
+		ch <- v
+		return
+	}
+	s.send(reflect.ValueOf(ch), reflect.ValueOf(&v).Elem())
+}
+
+//go:norace
+func (s *Sim) send(c, v reflect.Value) {
+	t := s.cur
+	s.step(OpSelect, 0, false)
+	s.WriteEpoch++
+	if !c.IsValid() || c.IsNil() {
+		for {
+			s.block(t, bkSend, 0) // a send on a nil channel blocks for ever
+		}
+	}
+	for {
+		if !s.hasPend(c.Pointer()) && c.TrySend(v) {
+			s.pollSel = true
+			return
+		}
+		p := &pendSend{ch: c.Pointer(), v: v, t: t}
+		s.pend = append(s.pend, p)
+		s.pollSel = true
+		raceRelease(unsafe.Pointer(p)) // what the sender did happens-before the receive
+		for !p.taken && !p.retry {
+			s.block(t, bkSend, 0)
+		}
+		raceAcquire(unsafe.Pointer(p)) // the receive happens-before the completion of the send
+		if p.taken {
+			p.v = reflect.Value{}
+			return
+		}
+	}
+}
+
+//go:norace
+func (s *Sim) hasPend(ch uintptr) bool {
+	for _, p := range s.pend {
+		if p.ch == ch {
+			return true
+		}
+	}
+	return false
+}
+
+// takePend removes and returns the oldest pending send on ch.
+//
+//go:norace
+func (s *Sim) takePend(ch uintptr) *pendSend {
+	for i, p := range s.pend {
+		if p.ch == ch {
+			copy(s.pend[i:], s.pend[i+1:])
+			s.pend[len(s.pend)-1] = nil // no stale reference to the value in the backing array
+			s.pend = s.pend[:len(s.pend)-1]
+			return p
+		}
+	}
+	return nil
+}
+
+//go:norace
+func (s *Sim) wakeSender(p *pendSend) {
+	if p.t.state == stBlocked && p.t.bk == bkSend {
+		p.t.state = stRunnable
+		p.t.bk = bkNone
+	}
+	s.WriteEpoch++
+}
+
+// tryRecvPend: like tryRecv of the real channel, but pending simulated senders
+// count: with an empty buffer the oldest pending value is handed over, after a
+// buffered value was taken the oldest pending sender moves into the buffer.
+// Result as reflect.Value.TryRecv: (v, true) received; (valid zero, false)
+// closed; (invalid, false) would block.
+//
+//go:norace
+func (s *Sim) tryRecvPend(c reflect.Value) (reflect.Value, bool) {
+	v, ok := c.TryRecv()
+	if ok {
+		if p := s.takePend(c.Pointer()); p != nil {
+			raceAcquire(unsafe.Pointer(p))
+			if c.TrySend(p.v) {
+				p.taken = true
+			} else {
+				p.retry = true
+			}
+			raceRelease(unsafe.Pointer(p))
+			s.wakeSender(p)
+		}
+		return v, true
+	}
+	if v.IsValid() {
+		return v, false // closed
+	}
+	if p := s.takePend(c.Pointer()); p != nil {
+		raceAcquire(unsafe.Pointer(p))
+		pv := p.v
+		p.taken = true
+		raceRelease(unsafe.Pointer(p))
+		s.wakeSender(p)
+		return pv, true
+	}
+	return v, false
 }
